@@ -24,7 +24,7 @@ from .base import Outcome, Prop
 CONFIG_YML = ("models:\n  - type: main\n    engine: simllm\n    model: sim\n  - type: embeddings\n    engine: SimEmbed\n    model: sim\n")
 FIXED_TMPL = "Could not load the %s guardrails configuration. An internal error has occurred."
 
-VALID_IDS = ["cfgA", "cfgB"]
+VALID_IDS = ["cfgA", "cfgB", "CfgA"]  # CfgA: a different configuration whose name differs from cfgA only by case
 HOSTILE_IDS = [
     "..", "../outside", "../root2/cfgX", "cfgA/../../outside", "cfgA/..", "/etc", "/dev/shm", "..\\outside", "cfgA\\..\\..\\outside", "....//outside", "%2e%2e%2foutside", "%2e%2e/outside",
     "．．/outside", "..／outside", "‥/outside", ".", "", " ", "cfgA/", "./cfgA", "cfgA\x00", "\x00", "nonexistent", "root2", "_hidden", ".dot", "file.txt", "cfgA" + "a" * 300, "CFGA", "cfgA ", "~", "$HOME",
